@@ -447,7 +447,8 @@ class ClientSending(Unit):
     qual = 'SocketClient._open_connections.<locals>._keep_sending'
     ignore_calls = ('asyncio.sleep',)
     canaries = (('request registered under the id of its payload', '                req_id = id(fut)', '                req_id = id(x)', 'own future'),
-                ('future registered under another key', '                active[req_id] = fut', '                active[0] = fut', 'own future'))
+                ('future registered under another key', '                active[req_id] = fut', '                active[0] = fut', 'own future'),
+                ('the sender leaves at the first idle moment', '                    if to_shutdown.is_set():\n                        return', '                    if not to_shutdown.is_set():\n                        return', 'only ends once'))
 
     def setup(self, ex):
         st = St()
@@ -499,6 +500,8 @@ class ClientSending(Unit):
         for k, s, p in outs:
             if k == 'raise':
                 ex.oblige(s, 'exit: the sender does not die with an exception of its own', False)
+            else:
+                ex.oblige(s, 'exit: the sender only ends once the shutdown flag is set (an idle moment is not the end: later requests are still to be sent)', self.stop.get(s, 'flag'))
 
 
 class PendingQ(QueueWriter):
@@ -554,6 +557,10 @@ class ClientEnqueue(Unit):
                 ex.oblige(s, 'exit: returns the future that was queued with the request, queued exactly once', z3.And(z3.BoolVal(len(futs) == 1 and unbox_handle(ex, p) is futs[0]), self.pending.nput(s) == 1))
             else:
                 ex.oblige(s, 'exit(raise): nothing was queued', self.pending.nput(s) == 0)
+                # a started, open client accepts the request: it is refused only before the client is started, once it is closing, or when the pending queue stayed full for the caller's timeout
+                closing = z3.Or(*[v.get(s, 'flag') for v in ex.objs.values() if isinstance(v, Event)])
+                ex.oblige(s, 'exit(raise): a request is refused only when the client is not started, is closing, or the pending queue stayed full (queue.Full)',
+                          z3.Or(z3.Not(z3.Bool('client_started')), closing, V.isinst(p, 'queue.Full')))
 
 
 class ClientRequest(Unit):
@@ -601,7 +608,9 @@ class ClientRequest(Unit):
                       z3.BoolVal(not s.ghost.get('cancelled')))
             if k in ('normal', 'return'):
                 ex.oblige(s, 'exit: enqueued exactly its own (path, payload); returns the result of its own future (or None when no response is wanted)',
-                          z3.And(z3.BoolVal(len(enq) == 1), enq[0][0] == self.path, enq[0][1] == self.data, z3.Or(box(ex, p) == NONE, z3.And(fut_ok(f), box(ex, p) == fut_val(f)))) if len(enq) == 1 else z3.BoolVal(False))
+                          z3.And(z3.BoolVal(len(enq) == 1), enq[0][0] == self.path, enq[0][1] == self.data,
+                                 # None WITHOUT waiting only when the caller said it wants no response (response_timeout <= 0); otherwise the future's own result
+                                 z3.If(z3.And(V.is_intv(s.env['response_timeout']), V.ival(s.env['response_timeout']) <= 0), box(ex, p) == NONE, z3.And(fut_ok(f), box(ex, p) == fut_val(f)))) if len(enq) == 1 else z3.BoolVal(False))
             else:
                 ex.oblige(s, 'exit(raise): the enqueue failure, its own future\'s exception, or the response timeout', z3.BoolVal(len(enq) <= 1))
 
